@@ -2,6 +2,7 @@
 From KV Require Import Res.MapSites Res.MapSitesProofs Gen.MapRanges.
 From KV Require Import Base.Prelude.
 From KV Require Import Glob.OpenApiState Glob.OpenApiStateProofs Glob.OpenApiHistoryProofs Glob.FullState.
+From KV Require Import Glob.Conc Glob.GlobalsTypes Glob.GlobalsAllow Glob.GlobalsCheck Glob.GlobalsProofs Gen.Globals.
 
 (* Every `range` over a map in the kustomize packages imported by krusty either collects keys that are
    sorted afterwards, only builds sets/maps/booleans, or is one of the hand-justified sites of Res/MapSites.v.
@@ -53,6 +54,16 @@ Theorem Gen_written_globals_closed :
    "kyaml/openapi.kubernetesOpenAPIVersion"].
 Proof. exact written_globals_closed. Qed.
 Print Assumptions Gen_written_globals_closed.
+
+(* ... and every package-level object that is only initialised once but whose reference is used by calls / method calls
+   outside initialisers (a `var memo = &cache{}` / `var digest = sha256.New()` style object: state that could be mutated
+   behind the "written" analysis) is excused by type or by name with a reason (Glob/GlobalsAllow.v), no excuse is stale.
+   Together with Gen_written_globals_closed: ANY new package-level variable that a build can write — assigned, updated
+   through (maps, fields, elements), sync.Map / atomic method calls, address-taken, or mutated through its methods — in
+   any kustomize package of the import closure of api/krusty breaks one of the two obligations. *)
+Theorem Gen_shared_objects_excused : vars_ok var_prots allow_list gen_global_vars = true.
+Proof. exact globals_vars_covered. Qed.
+Print Assumptions Gen_shared_objects_excused.
 
 (* History independence over the full state vector (OpenAPI state machine + the once-parsed default transformer
    configuration, of which builds only see deep copies of a compile-time constant). *)
